@@ -227,14 +227,50 @@ inductive CE (K : Type)
   | ret (s : Sim K) (lastFull : K)
   | blocked (s : Sim K)
 
+/-- rebound.c:654-661: SINGLE_STEP turns into PAUSED, anything below counts up towards it -/
+def exitCountdown (s : Sim K) : Sim K :=
+  if s.status ≤ stSINGLE_STEP then
+    if s.status = stSINGLE_STEP then { s with status := stPAUSED }
+    else { s with status := s.status + 1 }
+  else s
+
+/-- rebound.c:677-716: the time logic (runs only while the status is negative).
+    Returns the new state and the new `*last_full_dt`. -/
+def exitTime (s : Sim K) (tmax : K) (tmaxInf : Bool) (lastFull dtsign : K) : Sim K × K :=
+  if s.status ≥ 0 then (s, lastFull)
+  else if tmaxInf then (s, lastFull)
+  else if s.exactFinish = 1 then
+    if fge ((s.t + s.dt) * dtsign) (tmax * dtsign) then
+      if feq s.t tmax then ({ s with status := stSUCCESS }, lastFull)
+      else if s.status = stLAST_STEP then
+        let tscale : K := ScalarS.c1em12 * ScalarS.fabs tmax
+        let tscale : K := if ScalarO.lt tscale ScalarS.c1em200 then ScalarS.c1em12 else tscale
+        if ScalarO.lt (ScalarS.fabs (s.t - tmax)) tscale then
+          ({ s with status := stSUCCESS }, lastFull)
+        else
+          ({ s with syncs := s.syncs + 1, dt := tmax - s.t }, lastFull)
+      else
+        let lf := if fne s.dtLastDone Scalar.zero then s.dtLastDone else lastFull
+        ({ s with status := stLAST_STEP, syncs := s.syncs + 1, dt := tmax - s.t }, lf)
+    else
+      if s.status = stLAST_STEP then ({ s with status := stRUNNING }, lastFull)
+      else (s, lastFull)
+  else
+    if fge (s.t * dtsign) (tmax * dtsign) then ({ s with status := stSUCCESS }, lastFull)
+    else (s, lastFull)
+
+/-- rebound.c:718-728 -/
+def exitNoParticles (s : Sim K) (f : Flags) : Sim K :=
+  if f.n = 0 then
+    if s.nOdes = 0 then { s with status := stNO_PARTICLES }
+    else if !s.isBS then { s with status := stNO_PARTICLES }
+    else s
+  else s
+
 /-- rebound.c:653-738 -/
 def checkExit (s : Sim K) (tmax : K) (tmaxInf : Bool) (lastFull : K) (f : Flags) : CE K :=
   -- 654-661
-  let s : Sim K :=
-    if s.status ≤ stSINGLE_STEP then
-      if s.status = stSINGLE_STEP then { s with status := stPAUSED }
-      else { s with status := s.status + 1 }
-    else s
+  let s := exitCountdown s
   -- 662-672
   if (s.status = stPAUSED ∨ s.status = stSCREENSHOT) ∧ f.sigint = false then .blocked s else
   let s : Sim K :=
@@ -244,36 +280,9 @@ def checkExit (s : Sim K) (tmax : K) (tmaxInf : Bool) (lastFull : K) (f : Flags)
   -- 674-676
   let s : Sim K := if f.errMsg then { s with status := stGENERIC_ERROR } else s
   -- 677-716
-  let (s, lastFull) : Sim K × K :=
-    if s.status ≥ 0 then (s, lastFull)
-    else if tmaxInf then (s, lastFull)
-    else if s.exactFinish = 1 then
-      if fge ((s.t + s.dt) * dtsign) (tmax * dtsign) then
-        if feq s.t tmax then ({ s with status := stSUCCESS }, lastFull)
-        else if s.status = stLAST_STEP then
-          let tscale : K := ScalarS.c1em12 * ScalarS.fabs tmax
-          let tscale : K := if ScalarO.lt tscale ScalarS.c1em200 then ScalarS.c1em12 else tscale
-          if ScalarO.lt (ScalarS.fabs (s.t - tmax)) tscale then
-            ({ s with status := stSUCCESS }, lastFull)
-          else
-            ({ s with syncs := s.syncs + 1, dt := tmax - s.t }, lastFull)
-        else
-          let lf := if fne s.dtLastDone Scalar.zero then s.dtLastDone else lastFull
-          ({ s with status := stLAST_STEP, syncs := s.syncs + 1, dt := tmax - s.t }, lf)
-      else
-        if s.status = stLAST_STEP then ({ s with status := stRUNNING }, lastFull)
-        else (s, lastFull)
-    else
-      if fge (s.t * dtsign) (tmax * dtsign) then ({ s with status := stSUCCESS }, lastFull)
-      else (s, lastFull)
-  -- 718-728
-  let s : Sim K :=
-    if f.n = 0 then
-      if s.nOdes = 0 then { s with status := stNO_PARTICLES }
-      else if !s.isBS then { s with status := stNO_PARTICLES }
-      else s
-    else s
-  .ret s lastFull
+  let r := exitTime s tmax tmaxInf lastFull dtsign
+  -- 718-728, 737
+  .ret (exitNoParticles r.1 f) r.2
 
 /-- how `reb_simulation_integrate` ends -/
 inductive Outcome (K : Type)
